@@ -299,6 +299,29 @@ theorem batch_script_lines_preserve_scalar_semantics (p : Program) (hf : Src.fra
     subst ho
     exact snd
 
+/-- **At the line level the outcome is unique, and it is the one the executable line interpreter computes.**  `LRun` is
+    deterministic (`LRun.det`) and the interpreter `lrun` - run on every script of the fragment in every check, next to the
+    program-counter machine, the tree interpreter and lib/cmdsim.py - is sound for it (`lrun_sound`): whenever the source
+    semantics ends normally or with a panic and `lrun` finishes on the script's lines, `lrun` reports the exit code the
+    program has (0 for a normal end) and the same printed lines. -/
+theorem batch_lines_outcome_unique (p : Program) (hf : Src.fragStmts p = true) (hn : simpleLoopsStmts p = true)
+    (ls : List BLine) (hc : compile p = .ok ls) :
+    ∃ (pre main : List BLine),
+      ls = pre ++ (main ++ [.label "end", .raw "endlocal & exit /B %_e%"]) ∧
+      ∀ f1 f2 o1 out1 o2 c2, Src32.runProgram f1 p = some (o1, out1) →
+        lrun ls f2 (main ++ [.label "end", .raw "endlocal & exit /B %_e%"]) ⟨startStore, []⟩ = some (o2, c2) →
+        (o1 = .normal → o2 = .exit 0 ∧ out1 = c2.out) ∧ (∀ k, o1 = .exit k → o2 = .exit k ∧ out1 = c2.out) := by
+  obtain ⟨pre, main, e, sem⟩ := batch_script_lines_preserve_scalar_semantics p hf hn ls hc
+  refine ⟨pre, main, e, ?_⟩
+  intro f1 f2 o1 out1 o2 c2 hs hx
+  obtain ⟨c', eo, hnorm, hexit⟩ := sem f1 o1 out1 hs
+  have hl := lrun_sound ls f2 _ _ o2 c2 hx
+  refine ⟨fun ho => ?_, fun k ho => ?_⟩
+  · obtain ⟨h1, h2⟩ := LRun.det (hnorm ho) hl
+    exact ⟨h1.symm, by rw [← eo, h2]⟩
+  · obtain ⟨h1, h2⟩ := LRun.det (hexit k ho) hl
+    exact ⟨h1.symm, by rw [← eo, h2]⟩
+
 /-! non-vacuity: a program with a nested loop, `break`, `continue`, an if / else-if / else chain and a panic is in the fragment, runs in
     the source semantics, and its script runs in the line-level machine of `Sem/Cmd` to the same printed lines and exit code -/
 private def iv : Var := { name := "i", vt := ⟨.int, false⟩, global := true, pub := false }
@@ -318,6 +341,9 @@ example : Src.fragStmts loopSample = true ∧ simpleLoopsStmts loopSample = true
   | _ => false)
 #guard (match compile loopSample with
   | .ok ls => SemB.runTree 10000 ls == some (.exit 1, ["0", "j 0", "2", "j 0", "j 1", "j 2", "panic: stop"])
+  | _ => false)
+#guard (match compile loopSample with
+  | .ok ls => SemB.runLines 10000 ls == some (.exit 1, ["0", "j 0", "2", "j 0", "j 1", "j 2", "panic: stop"])
   | _ => false)
 
 end Tsh.C05S
